@@ -322,9 +322,14 @@ class Summary:
         self.cfg: CFG = build(f.node)
         self.rename: t.Dict[str, str] = {}
         if ref_params is not None:
-            if len(ref_params) != len(f.params):
+            # parameters that kept their reference name stay; the others are matched in order (renames); a parameter the
+            # reference does not have (a new optional argument) is a free symbol of the summary
+            same = set(f.params) & set(ref_params)
+            own_rest = [p for p in f.params if p not in same]
+            ref_rest = [r for r in ref_params if r not in same]
+            if len(own_rest) < len(ref_rest):
                 raise AnalysisError(f"{f.qual}: parameter list changed ({f.params}; the reference has {ref_params})")
-            self.rename = {a: r for a, r in zip(f.params, ref_params) if a != r}
+            self.rename = dict(zip(own_rest, ref_rest))
         self.paths: t.List[PathSum] = []
         g = self.cfg
         n = 0
